@@ -15,41 +15,97 @@ META = {
         'Trusted: z3, reals for doubles, symproto (validated per sampled path '
         'on upb). Assumes the property\'s own precondition (no overlapping '
         'same-pitch notes on one instrument) and notes of positive length.',
-    'functions': [('sequences_lib', 'apply_sustain_control_changes')],
+    'functions': [('sequences_lib', 'apply_sustain_control_changes'),
+                  ('sequences_lib', 'is_quantized_sequence')],
     'assumptions': [
         'double fields are exact reals',
         'no two notes of one pitch on one instrument overlap; every note has '
         'end > start (zero-length notes are outside the claim)',
-        'instruments in {0,1} (note 0 on instrument 0 w.l.o.g.), pitches in {60,61}, control numbers in 63..65, '
-        'control values 0..127',
+        'main grid: instruments in {0,1} (note 0 on instrument 0 w.l.o.g.), '
+        'pitches in {60,61}, control numbers in 63..65, control values 0..127; '
+        'extra jobs: instruments 2/3/9/15, pitches 0..127, '
+        'sustain_control_number 0/66/127 and 64 passed explicitly (keyword and '
+        'positional) with control numbers around the chosen one',
+        'input total_time covers the notes, except in the stale jobs (there: '
+        'total_time only bounded, 0 <= input <= result <= max(input, ends))',
+        'all other fields of the sequence, notes and control changes hold '
+        'concrete non-default values; the result is compared as a whole '
+        'message with the input in which only note ends / total_time are '
+        'replaced by the specified values',
     ],
     'bounds': {
-        'quick': '(notes, pedal events) in {(1,1),(1,2),(2,1),(2,2),(3,1)}',
-        'thorough': 'adds (2,3),(3,2) under a wall-clock budget (not '
-                    'required to finish)',
+        'quick': '(notes, pedal events) in {(1,1),(1,2),(2,1),(2,2),(3,1)} on '
+                 'instruments {0,1}; (2,2)/(2,1)/(1,2) variants for other '
+                 'controller numbers / call forms / instruments / full pitch '
+                 'range / stale total_time / second call; (0,2),(2,0),(0,0); '
+                 'step fields without quantization_info; quantized input with '
+                 'and without pedal events',
+        'thorough': 'adds (2,3),(3,2), (3,1) with three free pitches / three '
+                    'instruments / stale total_time, the (2,2) grid with '
+                    'controller 66, (2,2) second call, under a wall-clock '
+                    'budget (not required to finish)',
     },
     'outside': ['more than 3 notes / 3 pedal events', 'zero-length notes',
-                'overlapping same-pitch notes'],
+                'overlapping same-pitch notes (the note-removal branch)',
+                'control values outside 0..127, negative times',
+                'total_time covering the extended notes when the input '
+                'total_time was stale'],
 }
+
+
+def _other_content(ns):
+  """Concrete, non-default content in every part of the sequence the function
+  has no business with (the result is documented as a copy of the input with
+  note ends extended)."""
+  ns.id = 'seq-id'
+  ns.filename = 'f.mid'
+  ns.collection_name = 'coll'
+  ns.ticks_per_quarter = 480
+  ns.tempos.add(time=0, qpm=90)
+  ns.tempos.add(time=1.5, qpm=150)
+  ns.time_signatures.add(time=0, numerator=3, denominator=8)
+  ns.key_signatures.add(time=0.5, key=7, mode=1)
+  ns.pitch_bends.add(time=0.25, bend=-100, instrument=1, program=3)
+  ns.text_annotations.add(time=2, text='Cmaj7', annotation_type=1)
+  ns.section_annotations.add(time=1, section_id=4)
+  ns.instrument_infos.add(instrument=1, name='instr')
+  ns.part_infos.add(part=1, name='part')
+  ns.source_info.parser = 2
+  ns.sequence_metadata.title = 'title'
+  ns.subsequence_info.start_time_offset = 0.75
 
 
 def h_sustain(c):
   N, P = c.params['N'], c.params['P']
   pb, sl = c.pb, c.mod('sequences_lib')
   ns = pb.NoteSequence()
+  _other_content(ns)
+  # steps=True: step fields left over from an earlier quantization but an empty
+  # quantization_info -- is_quantized_sequence looks at quantization_info only,
+  # so such a sequence is unquantized and must be processed like any other
+  steps = c.params.get('steps', False)
+  if steps:
+    ns.total_quantized_steps = 7
+  p_lo, p_hi = c.params.get('pitch', (60, 61))
   notes = []
   for i in range(N):
     s = c.real('n%d_s' % i, 0)
     e = c.real('n%d_e' % i)
     c.assume(e >= s)  # zero-duration notes are legal NoteSequence notes
-    p = c.int('n%d_p' % i, 60, 61)
+    p = c.int('n%d_p' % i, p_lo, p_hi)
     # instruments are concrete per job (all assignments are enumerated as
     # separate jobs so that they run in parallel)
     ins = c.params['ni'][i]
     d = c.bool('n%d_d' % i)
     v = c.int('n%d_v' % i, 1, 127)
-    ns.notes.add(start_time=s, end_time=e, pitch=p, instrument=ins, is_drum=d,
-                 velocity=v)
+    # program / score fields: notes of one instrument with different programs
+    # are still notes of one instrument (the docstring says "per instrument")
+    m = ns.notes.add(start_time=s, end_time=e, pitch=p, instrument=ins,
+                     is_drum=d, velocity=v, program=10 + i, numerator=1,
+                     denominator=4, part=1, voice=2, pitch_name=3 + i)
+    if steps:
+      m.quantized_start_step = 3 + i
+      m.quantized_end_step = 5 + i
     notes.append(dict(s=s, e=e, p=p, i=ins, d=d, v=v))
   for a in range(N):
     for b in range(a + 1, N):
@@ -60,28 +116,46 @@ def h_sustain(c):
                     B['d'],
                     c.And(c.Or(A['e'] <= B['s'], B['e'] <= A['s']),
                           c.Not(c.eq(A['s'], B['s'])))))
+  snum = c.params.get('sustain_number', 64)
+  if 'cn' in c.params:
+    cn_lo, cn_hi = c.params['cn']
+  elif snum == 64:
+    cn_lo, cn_hi = 63, 65
+  else:
+    cn_lo, cn_hi = 64, 66
   ccs = []
   for j in range(P):
     t = c.real('c%d_t' % j, 0)
-    num = c.int('c%d_n' % j, 63, 65) if c.params.get(
-        'sustain_number', 64) == 64 else c.int('c%d_n' % j, 64, 66)
+    num = c.int('c%d_n' % j, cn_lo, cn_hi)
     val = c.int('c%d_v' % j, 0, 127)
     ins = c.params['ci'][j]
-    ns.control_changes.add(time=t, control_number=num, control_value=val,
-                           instrument=ins)
+    m = ns.control_changes.add(time=t, control_number=num, control_value=val,
+                               instrument=ins, program=20 + j)
+    if steps:
+      m.quantized_step = 2 + j
     ccs.append(dict(t=t, n=num, v=val, i=ins))
   tt = c.real('tt', 0)
-  for n in notes:
-    c.assume(n['e'] <= tt)
+  # stale=True: total_time of the input is NOT assumed to cover the notes
+  stale = c.params.get('stale', False)
+  if not stale:
+    for n in notes:
+      c.assume(n['e'] <= tt)
   ns.total_time = tt
   before = c.snapshot(ns)
-  snum = c.params.get('sustain_number', 64)
-  if snum == 64:
-    out = sl.apply_sustain_control_changes(ns)
+  call = c.params.get('call')
+  if call == 'pos':  # second positional argument
+    apply_ = lambda x: sl.apply_sustain_control_changes(x, snum)
+  elif call == 'kw' or snum != 64:
+    apply_ = lambda x: sl.apply_sustain_control_changes(
+        x, sustain_control_number=snum)
   else:
-    out = sl.apply_sustain_control_changes(ns, sustain_control_number=snum)
+    apply_ = sl.apply_sustain_control_changes
+  out = apply_(ns)
   c.check(c.msg_eq(ns, before), 'input unchanged')
+  c.check(out is not ns, 'the result is a new NoteSequence object')
   c.check(len(out.notes) == N, 'no note removed or invented')
+  c.check(len(out.control_changes) == P,
+          'no control change removed or invented')
   # ---- declarative specification
   sus = [cc for cc in ccs]  # events that count: control number 64
   is_sus = lambda cc: c.eq(cc['n'], snum)
@@ -124,13 +198,50 @@ def h_sustain(c):
     c.check(c.And(c.eq(m.start_time, n['s']), c.eq(m.pitch, n['p']),
                   c.eq(m.velocity, n['v']), c.eq(m.instrument, n['i']),
                   c.eq(m.is_drum, n['d'])), 'everything but the end unchanged')
-    c.check(out.total_time >= m.end_time, 'total_time covers every note')
+    if not stale:
+      c.check(out.total_time >= m.end_time, 'total_time covers every note')
     c.check(m.end_time >= n['e'], 'a note is never shortened')
   c.check(c.Implies(c.Not(any_down), c.msg_eq(out, before)),
           'without pedal-down events the result equals the input')
   c.check(c.And([c.msg_eq(a, b) for a, b in zip(out.control_changes,
                                                before.control_changes)]),
           'control changes unchanged')
+  # ---- total_time: the result is a copy, so total_time is the input's unless
+  # an extended note needs more.  (The result's note ends were compared with
+  # the specification above; using them here keeps the terms small.)
+  out_ends = [m.end_time for m in out.notes]
+  if not stale:
+    c.check(c.eq(out.total_time, c.Max([tt] + out_ends)),
+            'total_time = max(input total_time, extended note ends)')
+  else:
+    # the input's total_time did not cover its own notes: the result must keep
+    # it or raise it and has no reason to exceed the latest note end.  (That
+    # it covers the notes it extended is NOT demanded: the library leaves
+    # total_time alone when a hold is cut by a re-strike -- n1=[0,0] p60, pedal
+    # down at 0, n0=[1/8,3/16] p60, pedal up at 3/16, total_time 0 gives
+    # total_time 0 with n1 ending at 1/8 -- and "still covers" presupposes an
+    # input that was covered.)
+    c.check(out.total_time >= tt, 'total_time never decreases (stale input)')
+    c.check(out.total_time <= c.Max([tt] + out_ends),
+            'total_time <= max(input total_time, note ends) (stale input)')
+  # ---- the whole message: a copy of the input in which only note ends and
+  # total_time differ (every other field of every note / control change /
+  # tempo / signature / annotation / info survives); ends and total_time
+  # themselves are checked above
+  expected = c.snapshot(before)
+  for idx in range(min(N, len(out.notes))):
+    expected.notes[idx].end_time = out.notes[idx].end_time
+  expected.total_time = out.total_time
+  c.check(c.msg_eq(out, expected),
+          'result = copy of the input with only note ends / total_time changed')
+  if c.params.get('twice'):
+    # no hidden state: a second call on the same input gives the same answer.
+    # (That the result is a fixed point of the function is not checked
+    # separately: the specification above is exact and idempotent, so within
+    # these bounds it cannot fail without one of the checks above failing.)
+    out2 = apply_(ns)
+    c.check(c.msg_eq(out2, out), 'second call on the same input: same result')
+    c.check(c.msg_eq(ns, before), 'input unchanged')
   if N >= 1 and P >= 1:
     n0, c0 = notes[0], ccs[0]
     c.cover('note ends while its pedal is down',
@@ -149,6 +260,8 @@ def h_sustain(c):
     c.cover('on and off at the same instant',
             c.And(c.eq(ccs[0]['t'], ccs[1]['t']), ccs[0]['v'] >= 64,
                   ccs[1]['v'] < 64))
+  if stale and N >= 1:
+    c.cover('input total_time below a note end', tt < notes[0]['e'])
 
 
 def h_quantized(c):
@@ -157,12 +270,26 @@ def h_quantized(c):
   ns.notes.add(start_time=0, end_time=1, pitch=60, velocity=1)
   ns.total_time = 1
   which = c.params['which']
+  snum = c.params.get('sustain_number')
+  if c.params.get('pedal'):
+    # a quantized sequence that does carry pedal events (down before the note
+    # ends, up after it) for the controller that is asked for
+    k = 64 if snum is None else snum
+    ns.control_changes.add(time=0.5, control_number=k, control_value=100)
+    ns.control_changes.add(time=2, control_number=k, control_value=0)
+    ns.total_time = 2
+  # (steps_per_quarter / steps_per_second are members of one oneof: both at
+  # once cannot be represented)
   if which == 'spq':
     ns.quantization_info.steps_per_quarter = c.int('spq', 1, 96)
   else:
     ns.quantization_info.steps_per_second = c.int('sps', 1, 1000)
   before = c.snapshot(ns)
-  res, err = c.raises(sl.apply_sustain_control_changes, ns)
+  if snum is None:
+    res, err = c.raises(sl.apply_sustain_control_changes, ns)
+  else:
+    res, err = c.raises(sl.apply_sustain_control_changes, ns,
+                        sustain_control_number=snum)
   c.check(err is not None and isinstance(err, sl.QuantizationStatusError),
           'quantized input rejected with QuantizationStatusError')
   c.check(c.msg_eq(ns, before), 'input unchanged')
@@ -196,7 +323,56 @@ def jobs(tier):
   grid(3, 1, budget=900)
   # another controller number as the sustain pedal (e.g. sostenuto, 66)
   add('h_sustain', N=1, P=2, ni=[0], ci=[0, 0], sustain_number=66, budget=400)
+  # ---- quantized input that carries pedal events; another controller asked
+  # for
+  add('h_quantized', which='spq', pedal=True)
+  add('h_quantized', which='sps', pedal=True, sustain_number=66)
+  # ---- sustain_control_number: other values (0 is falsy, 127 the last
+  # controller), explicit 64, positional form; two notes so that the re-strike
+  # cut is reached.  Pitches over the whole MIDI range (0 is falsy).
+  FULL = [0, 127]
+  add('h_sustain', N=2, P=2, ni=[3, 3], ci=[3, 3], sustain_number=0,
+      cn=[0, 1], pitch=FULL, budget=400)
+  add('h_sustain', N=2, P=1, ni=[0, 0], ci=[0], sustain_number=66,
+      pitch=FULL, budget=400)
+  add('h_sustain', N=2, P=1, ni=[0, 0], ci=[0], sustain_number=127,
+      cn=[126, 128], call='pos', pitch=FULL, budget=400)
+  add('h_sustain', N=2, P=1, ni=[0, 1], ci=[1], sustain_number=64, call='kw',
+      pitch=FULL, budget=400)
+  add('h_sustain', N=1, P=2, ni=[0], ci=[0, 0], sustain_number=64, call='pos',
+      pitch=FULL, budget=400)
+  # ---- instrument numbers other than 0/1 (the quantifier allows 4 at once):
+  # pedals and notes crossed over instruments 2 and 9; pedals on instruments
+  # that only share parity / truthiness with the notes' instruments
+  add('h_sustain', N=2, P=2, ni=[2, 9], ci=[9, 2], pitch=FULL, budget=400)
+  add('h_sustain', N=2, P=1, ni=[2, 3], ci=[0], pitch=FULL, budget=400)
+  add('h_sustain', N=2, P=1, ni=[2, 3], ci=[1], pitch=FULL, budget=400)
+  add('h_sustain', N=2, P=1, ni=[15, 15], ci=[15], pitch=FULL, budget=400)
+  # ---- input whose total_time does not cover its notes (e.g. never set)
+  add('h_sustain', N=2, P=2, ni=[0, 0], ci=[0, 0], stale=True, budget=400)
+  add('h_sustain', N=2, P=1, ni=[0, 1], ci=[1], stale=True, budget=400)
+  # ---- second call / fixed point
+  add('h_sustain', N=2, P=1, ni=[0, 0], ci=[0], twice=True, pitch=FULL,
+      budget=400)
+  add('h_sustain', N=1, P=2, ni=[0], ci=[0, 0], twice=True, budget=400)
+  # ---- nothing to hold / nothing to hold it: no notes, no control changes
+  add('h_sustain', N=0, P=2, ni=[], ci=[0, 1], budget=400)
+  add('h_sustain', N=2, P=0, ni=[0, 0], ci=[], budget=400)
+  add('h_sustain', N=0, P=0, ni=[], ci=[], budget=400)
+  # ---- step fields set but quantization_info empty: not quantized
+  add('h_sustain', N=1, P=2, ni=[0], ci=[0, 0], steps=True, budget=400)
   if tier == 'thorough':
     grid(2, 3, budget=3000, required=False)
     grid(3, 2, budget=3000, required=False)
+    # three notes of three different pitches over the whole range; three
+    # instruments at once; the whole (2,2) grid with another controller
+    add('h_sustain', N=3, P=1, ni=[0, 0, 0], ci=[0], pitch=FULL, budget=1500,
+        required=False)
+    add('h_sustain', N=3, P=1, ni=[0, 2, 3], ci=[2], pitch=FULL, budget=1500,
+        required=False)
+    grid(2, 2, budget=1500, required=False, sustain_number=66, pitch=FULL)
+    add('h_sustain', N=3, P=1, ni=[0, 0, 0], ci=[0], stale=True, budget=1500,
+        required=False)
+    add('h_sustain', N=2, P=2, ni=[0, 0], ci=[0, 0], twice=True, budget=1500,
+        required=False)
   return J
